@@ -129,7 +129,7 @@ def trace_impls(F):
             yield im
 
 
-def run(rec, F, exceptions=None, only_adts=None):
+def run(rec, F, exceptions=None, only_adts=None, only_fields=None):
     exceptions = dict(EXCEPTIONS if exceptions is None else exceptions)
     R = rec.rule("F5.f", "every gc-bearing field of a Trace/TraceRoot ADT is read in trace() and flows to a Trace::trace call")
     bearing = sem.gc_bearing_adts(F)
@@ -191,6 +191,8 @@ def run(rec, F, exceptions=None, only_adts=None):
                                     traced.add((None, e[2]))
             fnloc = fn.loc
         for (variant, fname, fty) in gcf:
+            if only_fields is not None and fname not in only_fields:
+                continue
             key = (variant, fname)
             inst = "%s.%s%s" % (short, (variant + ".") if variant else "", fname)
             ok = key in traced or (None, fname) in traced and variant is None
